@@ -114,6 +114,29 @@ def check_lookup(case, ctx):
             cur = cur.ckd(i)
         if cur.extended_private_key() != node.extended_private_key():
             raise Violation("C17/lookup/differs-from-iterated-ckd", "by_path(%r) != iterated ckd over %r" % (s, L))
+        # the same lookup on wallets whose own root sits BELOW the master (account-level extended keys): the string is
+        # honoured component by component relative to that wallet's root
+        if tag == "wallet-1":
+            for rootpath in ([H + 84, H, H], [0], [H + 44, H + 1, H + 2, 0]):
+                try:
+                    rroot = R.derive(rm, rootpath)
+                    rsub = R.derive(rroot, L)
+                except R.Invalid:
+                    continue
+                ws = [("xprv", BaseWallet.from_extended_key(rroot.xprv(vprv)))]
+                if all(i < H for i in L):
+                    ws.append(("xpub", BaseWallet.from_extended_key(rroot.xpub(vpub))))
+                for kind_, wsub in ws:
+                    st_, node2 = call(wsub.by_path, s)
+                    if st_ == "exc":
+                        raise Violation("C17/lookup/raised", "by_path(%r) on a wallet rooted at depth %d (%s) raised %r"
+                                        % (s, len(rootpath), kind_, node2))
+                    got = (node2.extended_public_key(), node2.depth, node2.index)
+                    if got != (rsub.xpub(vpub), rsub.depth, rsub.index):
+                        raise Violation("C17/lookup/wrong-node-below-deeper-root", "by_path(%r) on a wallet built from the depth-%d "
+                                        "%s at %s gives %r (depth %d), applying the components to that root gives %s (depth %d)"
+                                        % (s, len(rootpath), kind_, R.fmt_path(rootpath), got[0], got[1], rsub.xpub(vpub), rsub.depth))
+                ctx.count("deeper-root-lookups", len(ws))
         # BIP85 entropy lookup by path string
         # BIP85 itself only defines hardened paths: entropy(path) may refuse a path, but must never use another one
         st_, e = call(w.bip85.entropy, s)
@@ -124,6 +147,69 @@ def check_lookup(case, ctx):
         elif e != R85.entropy(rm, L):
             raise Violation("C17/lookup/bip85-entropy", "bip85.entropy(%r) = %r, the node at that path gives %s"
                             % (s, e, R85.entropy(rm, L).hex()))
+
+
+# ------------------------------------------------------------------------------------ lookups from several threads
+def gen_lookup_threads(tier):
+    from vlib import threads as T
+    # paths that share parents (siblings under a few fixed prefixes) and unrelated ones
+    prefix = st.sampled_from([[], [H + 83696968], [H + 83696968, H + 2], [H + 83696968, H + 39, H], [H + 44, H], [0]])
+    tail = st.lists(st.one_of(st.sampled_from([H, H + 1, H + 2, 0, 1]), S.indexes()), min_size=1, max_size=2)
+    pth = st.builds(lambda a, b: (list(a) + list(b))[:5], prefix, tail)
+    req = st.tuples(st.sampled_from(["entropy", "entropy", "by_path"]), pth, MARKS)
+    return st.fixed_dictionaries({
+        "seed": S.seeds(16, 32), "testnet": st.booleans(), "warmup": st.lists(req, max_size=2),
+        "threads": st.lists(st.lists(req, min_size=1, max_size=2), min_size=2, max_size=3),
+        "plan": T.plans(max_run=15, max_len=60)})
+
+
+def check_lookup_threads(case, ctx):
+    """2..3 threads look nodes / BIP85 entropy up by path string on ONE wallet (one bip85 object) at once."""
+    from vlib import threads as T
+    Bip32Path, BaseWallet, B85 = _impl()
+    try:
+        rm = R.master(case["seed"])
+    except R.Invalid:
+        return
+    w = BaseWallet.from_bip39_seed_bytes(case["seed"], case["testnet"])
+    vprv = R.TPRV if case["testnet"] else R.XPRV
+
+    def do(req):
+        kind, L, marks = req
+        s_ = render(list(L), list(marks), "m")
+        if kind == "entropy":
+            return w.bip85.entropy(s_)
+        return w.by_path(s_).extended_private_key()
+    for req in case["warmup"]:
+        call(do, req)
+
+    def runner(reqs):
+        def run():
+            return [call(do, r) for r in reqs]
+        return run
+    results, errors = T.run_scheduled(case["plan"], [runner(r) for r in case["threads"]],
+                                      T.library_files("bip85", "bip32", "wallet_utils", "base_wallet", "keys", "helper"), ctx)
+    for t, reqs in enumerate(case["threads"]):
+        if t in errors:
+            raise Violation("C17/lookup-threads/crashed", "thread %d raised %r" % (t, errors[t]))
+        for (kind, L, marks), (st_, got) in zip(reqs, results[t]):
+            L = list(L)
+            s_ = render(L, list(marks), "m")
+            try:
+                want = R85.entropy(rm, L) if kind == "entropy" else R.derive(rm, L).xprv(vprv)
+            except R.Invalid:
+                continue
+            if st_ == "exc":
+                if kind == "entropy" and not all(i >= H for i in L):
+                    ctx.count("bip85-entropy-refused-path[has-normal-component]")
+                    continue
+                raise Violation("C17/lookup-threads/raised", "with %d threads looking paths up on one wallet, %s(%r) raised %r"
+                                % (len(case["threads"]), kind, s_, got))
+            if got != want:
+                raise Violation("C17/lookup-threads/wrong-node[%s]" % kind, "with %d threads looking paths up on one wallet, %s(%r) "
+                                "gave %r; applying the components of that string gives %r (requests: %r)" % (
+                                    len(case["threads"]), kind, s_, got.hex() if isinstance(got, bytes) else got,
+                                    want.hex() if isinstance(want, bytes) else want, case["threads"]))
 
 
 # ------------------------------------------------------------------------------------ malformed
@@ -394,7 +480,9 @@ def clauses():
                n={"quick": 6000, "thorough": 300000}, shards={"quick": 8, "thorough": 16}),
         Clause("lookup", check_lookup,
                "by_path(string) on two wallets with different masters in one process: equals the independent BIP32 "
-               "derivation (xprv and xpub strings), iterated ckd, canonical str(node); bip85.entropy(string) equals the "
+               "derivation (xprv and xpub strings), iterated ckd, canonical str(node); the same string on wallets built "
+               "from extended keys at depth 1, 3 and 4 (private, and public for all-normal paths) resolves relative to "
+               "that root; bip85.entropy(string) equals the "
                "reference; non-trivial = length >= 2 with a hardened component",
                gen=lambda tier: st.fixed_dictionaries({"path": paths(), "marks": MARKS, "root": st.sampled_from(["m", "M"]),
                                                        "seed": S.seeds(16, 64), "seed2": S.seeds(16, 64), "testnet": st.booleans()}),
@@ -406,6 +494,12 @@ def clauses():
                nontrivial=lambda c: len(c["path"]) >= 2 and any(i >= H for i in c["path"]),
                classes=lambda c: ["len=%d" % len(c["path"])],
                n={"quick": 500, "thorough": 25000}, shards={"quick": 16, "thorough": 16}),
+        Clause("lookup-threads", check_lookup_threads,
+               "2..3 threads issue 1..2 lookups each by path string - bip85.entropy(string) and by_path(string), paths "
+               "that share parents and unrelated ones - on ONE wallet after 0..2 warm-up lookups, under the deterministic "
+               "line-granularity scheduler; each answer must be the node / entropy of exactly that string's components; "
+               "non-trivial = >= 2 thread switches (measured)",
+               gen=gen_lookup_threads, n={"quick": 300, "thorough": 10000}, shards={"quick": 16, "thorough": 16}),
         Clause("malformed", check_malformed,
                "one fault in an otherwise valid string of <= 5 components: wrong root (14 forms), junk token (31 forms), "
                "out-of-range number with/without marker (listed and generated), empty inner component, missing root; "
